@@ -161,43 +161,72 @@ def run_verus(group):
 # ------------------------------------------------------------------------------------------------
 # Kani
 
-def run_kani(h, tier):
-    """h: dict(name, kind ('Kinf'|'Kb'), timeout, bound). Returns result dict."""
+def parse_kani_segment(seg):
+    r = {}
+    m = re.search(r'\*\* (\d+) of (\d+) failed', seg)
+    if 'VERIFICATION:- SUCCESSFUL' in seg:
+        r['status'] = 'pass'
+        r['checks'] = int(m.group(2)) if m else 0
+    elif 'VERIFICATION:- FAILED' in seg:
+        r['status'] = 'fail'
+        r['checks'] = int(m.group(2)) if m else 0
+        r['failed'] = re.findall(r'Failed Checks: (.*)', seg)[:10]
+        r['tail'] = seg[-3000:]
+        if r['failed'] and all('not currently supported' in f or 'unsupported' in f.lower() for f in r['failed']):
+            r['status'] = 'tool-limit'
+        if 'unwinding assertion' in ' '.join(r['failed']) and len([f for f in r['failed'] if 'unwinding' not in f]) == 0:
+            r['status'] = 'tool-limit'
+    else:
+        r['status'] = 'crash'
+        r['tail'] = seg[-1500:]
+    ms = re.search(r'Verification Time: ([\d.]+)s', seg)
+    if ms:
+        r['solver_s'] = float(ms.group(1))
+    return r
+
+
+def run_kani_batch(hs, timeout):
+    """Run several harnesses in ONE `cargo kani` invocation (one build). Returns a list of result dicts."""
+    if not hs:
+        return []
     t0 = time.time()
     crate = os.path.join(VERIF, 'kani')
     env = dict(os.environ)
     env['CARGO_NET_OFFLINE'] = 'true'
     env['CARGO_TARGET_DIR'] = os.path.join(BUILD, 'kani-target')
-    cmd = ['cargo', 'kani', '-Z', 'function-contracts', '-Z', 'stubbing', '--harness', h['name']] + h.get('args', [])
+    shutil.copyfile(os.path.join(REPO, 'Cargo.lock'), os.path.join(crate, 'Cargo.lock'))
+    cmd = ['cargo', 'kani', '-Z', 'function-contracts', '-Z', 'stubbing']
+    for h in hs:
+        cmd += ['--harness', h['name']]
     try:
-        p = subprocess.run(cmd, cwd=crate, capture_output=True, text=True, timeout=h.get('timeout', 300), env=env)
-        out = p.stdout + p.stderr
-        rc = p.returncode
+        p = subprocess.run(cmd, cwd=crate, capture_output=True, text=True, timeout=timeout, env=env)
+        out = p.stdout + '\n' + p.stderr
+        timed_out = False
     except subprocess.TimeoutExpired as e:
-        out = ((e.stdout or b'').decode('utf8', 'replace') if isinstance(e.stdout, bytes) else (e.stdout or ''))
-        rc = -9
+        out = (e.stdout.decode('utf8', 'replace') if isinstance(e.stdout, bytes) else (e.stdout or ''))
+        timed_out = True
         subprocess.run(['pkill', '-f', 'cbmc'], capture_output=True)
-        return {'harness': h['name'], 'kind': h['kind'], 'status': 'timeout', 'wall_s': time.time() - t0, 'bound': h.get('bound', '')}
-    r = {'harness': h['name'], 'kind': h['kind'], 'wall_s': round(time.time() - t0, 1), 'bound': h.get('bound', ''), 'cmd': ' '.join(cmd)}
-    m = re.search(r'\*\* (\d+) of (\d+) failed', out)
-    if 'VERIFICATION:- SUCCESSFUL' in out:
-        r['status'] = 'pass'
-        r['checks'] = int(m.group(2)) if m else 0
-    elif 'VERIFICATION:- FAILED' in out:
-        r['status'] = 'fail'
-        r['checks'] = int(m.group(2)) if m else 0
-        r['failed'] = re.findall(r'Failed Checks: (.*)', out)[:10]
-        r['tail'] = out[-3000:]
-        # unsupported-construct failures are tool limits, not refutations
-        if all('not currently supported' in f or 'unsupported' in f.lower() for f in r['failed']) and r['failed']:
-            r['status'] = 'tool-limit'
-    else:
-        r['status'] = 'crash'
-        r['tail'] = out[-1500:]
-    ms = re.search(r'Verification Time: ([\d.]+)s', out)
-    if ms:
-        r['solver_s'] = float(ms.group(1))
-    return r
+    segs = {}
+    parts = re.split(r'Checking harness ([\w:]+)\.\.\.', out)
+    for i in range(1, len(parts) - 1, 2):
+        segs[parts[i].split('::')[-1]] = parts[i + 1]
+    res = []
+    for h in hs:
+        r = {'harness': h['name'], 'kind': h['kind'], 'bound': h.get('bound', ''), 'cmd': ' '.join(cmd), 'wall_s': round(time.time() - t0, 1)}
+        seg = segs.get(h['name'])
+        if seg is None:
+            r['status'] = 'timeout' if timed_out else 'crash'
+            r['tail'] = out[-1500:]
+        else:
+            r.update(parse_kani_segment(seg))
+            if r['status'] == 'crash' and timed_out:
+                r['status'] = 'timeout'
+        res.append(r)
+    return res
+
+
+def run_kani(h, tier):
+    return run_kani_batch([h], h.get('timeout', 600))[0]
 
 
 # ------------------------------------------------------------------------------------------------
@@ -303,9 +332,11 @@ def main(argv):
     kres = []
     with cf.ThreadPoolExecutor(max_workers=props.JOBS) as ex:
         futs = [ex.submit(run_verus, g) for g in groups]
-        kf = [ex.submit(run_kani, h, tier) for h in kani]
+        kq = [h for h in kani if h['kind'] == 'Kinf']
+        kb = [h for h in kani if h['kind'] != 'Kinf']
+        kf = [ex.submit(run_kani_batch, kq, 900)] + [ex.submit(run_kani_batch, [h], h.get('timeout', 600)) for h in kb]
         results = [f.result() for f in futs]
-        kres = [f.result() for f in kf]
+        kres = [r for f in kf for r in f.result()]
 
     known, fixed = load_known()
     undecided = []
